@@ -253,6 +253,11 @@ def impl(case):
         _SCALE[:] = [1, "int"]
 
 
+def _cont(case, items):
+    from ..core import container
+    return container(case.get("container"), items)
+
+
 def _impl(case):
     k = case["kind"]
     if k == "rounds":
@@ -284,15 +289,15 @@ def _impl(case):
                     h = self.hs[self.i]; self.i += 1
                     return h
             hs = [bytes.fromhex(h) for h in case["hashes"]]
-            CVR.assign_sample_nums(cvrs, Stub(hs))
+            CVR.assign_sample_nums(_cont(case, cvrs), Stub(hs))
             script = [str(int_from_hash(h)) for h in hs]
             return {"st": "ok", "nums": [str(int(c.sample_num)) for c in cvrs], "script": script, "det": True}
         from cryptorandom.cryptorandom import SHA256, int_from_hash
-        CVR.assign_sample_nums(cvrs, SHA256(case["seed"]))
+        CVR.assign_sample_nums(_cont(case, cvrs), SHA256(case["seed"]))
         # same seed, different records -> same numbers
         rng2 = random.Random(case["vseed"] + 1)
         cvrs2 = [CVR(id=f"d{i}", votes=_votes(rng2, rng2.sample(CIDS, rng2.randint(0, 3))), phantom=False) for i in range(n)]
-        CVR.assign_sample_nums(cvrs2, SHA256(case["seed"]))
+        CVR.assign_sample_nums(_cont(case, cvrs2), SHA256(case["seed"]))
         g = SHA256(case["seed"])
         script = [str(int_from_hash(g.nextRandom())) for _ in range(n)]
         return {"st": "ok", "nums": [str(int(c.sample_num)) for c in cvrs], "script": script,
@@ -386,7 +391,7 @@ def _impl_renumber(case):
     for op in case["ops"]:
         if op["op"] == "number":
             prng = _Stub([bytes.fromhex(h) for h in op["hashes"]]) if op.get("hashes") is not None else SHA256(op["seed"])
-            CVR.assign_sample_nums(cvrs, prng)
+            CVR.assign_sample_nums(_cont(case, cvrs), prng)
             last = [str(int(c.sample_num)) for c in cvrs]
             steps.append({"nums": last})
         else:
@@ -706,12 +711,13 @@ def gen_cs(rng):
 
 
 def gen_assign(rng):
+    from ..core import CONTAINER_KINDS
     n = rng.randint(0, 12)
     if rng.chance(0.5):
         return {"kind": "assign", "n": n, "seed": None, "hashes": [("%064x" % rng.getrandbits(256)) for _ in range(n)],
-                "vseed": rng.randint(0, 10 ** 6)}
+                "vseed": rng.randint(0, 10 ** 6), "container": rng.choice(CONTAINER_KINDS)}
     return {"kind": "assign", "n": n, "seed": rng.choice([1234567890, rng.randint(0, 10 ** 9)]), "hashes": None,
-            "vseed": rng.randint(0, 10 ** 6)}
+            "vseed": rng.randint(0, 10 ** 6), "container": rng.choice(CONTAINER_KINDS)}
 
 
 def gen_renumber(rng):
